@@ -16,8 +16,9 @@ import (
 
 // Err is the error value produced by the engine's model of fmt.Errorf.
 type Err struct {
-	Msg   string
-	Wraps []error
+	Msg    string
+	Wraps  []error
+	Detail string // engine only: rendered operands, for diagnostics
 }
 
 func (e *Err) Error() string   { return e.Msg }
@@ -116,6 +117,15 @@ var (
 	searchOrd []string
 	searchSet = map[string]uint64{}
 )
+
+// UBits returns a value below 2^bits.
+func UBits(name string, bits int) uint64 {
+	v := next(name).Uint64()
+	if bits < 64 && v >= 1<<uint(bits) {
+		panic(pruned{"UBits out of range"})
+	}
+	return v
+}
 
 // Int returns an int in [lo,hi].
 func Int(name string, lo, hi int) int {
